@@ -25,6 +25,16 @@ CHECKS = {
         text="After construction (whole universe) and after every write event (history sub-universe, depth 1 quick / 2 thorough) the view rebuilt from (buffer, offset) and the rebuilt view of every nested compound agree with the constructor-side handles on value at every index, shape, strides, size, item/field offsets and cached structure.",
         note="Stand-alone union references are compared through their target.",
         design="2/C06"),
+    "C08": dict(
+        technique="explicit-state BFS (replay-based) over reference-binding histories on real holders and buffers against a heap-graph reference model",
+        text="8 holder shapes (struct/array/stand-alone, Ref/UnionRef, static/dynamic targets, nested holder) in a small traced growing buffer with two same-buffer objects, one other-member object and one foreign-buffer object; all histories to depth 4/3 (quick) or 6/5 (thorough) over the property's eight event kinds; on every transition: null encodings, alias = same offset, copies = fresh extents allocated in that transition, member index/type, relative offset words, liveness of the target allocation, values of all targets and originals (visibility and independence), before and after growth.",
+        note="Object identity in the model is (buffer, offset) of a traced live allocation.",
+        design="2/C08"),
+    "C09": dict(
+        technique="exhaustive case enumeration + depth-bounded BFS over single writes on either side, on real objects; value-tree model with explicit sharing rule",
+        text="T(src, ...) for the history sub-universe and the reference-bearing universe types x {refs fresh, null, alternating members} x {same buffer, other buffer, other context via buffer or _context, other buffer kind}: equal values, source intact, storage disjoint, referents shared in the same buffer and duplicated inside the copy's buffer otherwise (every part inside a live allocation of that buffer); then every single write (thorough: every pair) of a leaf on either side shows only where the model says.",
+        note="Aliasing between two references inside one source object is not enumerated.",
+        design="2/C09"),
     "C10": dict(
         technique="explicit-state BFS (replay-based, deduplicated on buffer bytes + model) over assignment/growth histories on the real objects against a value-tree reference model",
         text="From every validated object of the history sub-universe, all histories up to depth 2 (quick) / 3 (thorough) over {set leaf, set whole nested struct/array of equal size from plain data / ndarray / xobject, grow buffer} x {handle, view, nested view}; after every transition full re-read == model updated at that path only, structural snapshot unchanged, changed bytes inside the assigned element.",
@@ -46,6 +56,11 @@ CHECKS = {
         text="Same exhaustive history space as C04, judged step by step against an independent byte-map specification: first-fit placement, growth only when nothing fits, capacity monotone, every request returns, free never raises, get_free() equals free bytes of the map; coalescing decided behaviourally one step later (the look-ahead layer asks every allocation once more after the last level).",
         note="Growth amount is left to the implementation (not part of the property); zero-size requests are not compared for placement.",
         design="2/C12"),
+    "C13": dict(
+        technique="exhaustive enumeration of (buffer kind, capacity, offset, length, primitive, dtype, source layout) with depth-2 follow-up mutations, on the real buffers against a bytearray model",
+        text="Both CPU buffer kinds x capacity 0..10 (thorough 0..20) x every (offset,length) x every copying primitive and source kind/layout/dtype; poisoned background; storage read back directly; extracted copies independent, typed views aliasing (both directions).",
+        note="Requests outside the capacity are not part of the property.",
+        design="2/C13"),
 }
 
 NOT_APPLICABLE = {}
